@@ -238,6 +238,10 @@ func (s *rsession) track(op *rop, out *outv) {
 		s.hs = append(s.hs, hinfo{kind: hMsg, mi: s.si.msgs[op.r], valid: true, live: true, fresh: idx != 0, root: idx})
 		return
 	}
+	if op.code == "nil" || op.code == "zero" {
+		s.hs = append(s.hs, hinfo{kind: hMsg, mi: s.si.msgs[op.r], valid: false, live: true, root: -1})
+		return
+	}
 	recv := s.hs[op.r]
 	panicked := out.k == '!'
 	childMsg := func(fd protoreflect.FieldDescriptor) *msgInfo { return s.si.byName[fd.Message().FullName()] }
@@ -273,7 +277,11 @@ func (s *rsession) track(op *rop, out *outv) {
 			}
 		case "lappm":
 			if out.k == 'M' {
-				n := s.D.res[op.r].(protoreflect.List).Len() - 1
+				ref := s.D
+				if s.softRef {
+					ref = s.S
+				}
+				n := ref.res[op.r].(protoreflect.List).Len() - 1
 				nh = hinfo{kind: hMsg, mi: childMsg(recv.fd()), valid: true, live: true, root: recv.root, path: sub(recv.path, "i"+strconv.Itoa(n))}
 			}
 		case "lnew":
@@ -371,7 +379,7 @@ func (s *rsession) do(op *rop) bool {
 	}
 	s.raw = append(s.raw, s.render(s.F, outs[0], true)+"|"+s.si.fromGo(s.mi, s.rootF).String())
 	s.lastOut = outs[1]
-	recvInvalid := op.code != "new" && !s.hs[op.r].valid
+	recvInvalid := op.code != "new" && op.code != "nil" && op.code != "zero" && !s.hs[op.r].valid
 	cls := op.code
 	if recvInvalid {
 		cls += "@invalid"
@@ -389,23 +397,38 @@ func (s *rsession) do(op *rop) bool {
 			s.o.withKey(key).prop("C09", outs[0].k == '!', fmt.Sprintf("a store into an invalid (nil, read-only) value does not panic: %s; step %d returns %s", s.replay(idx), idx, norm[0]))
 		}
 	}
+	pid := s.propID
+	if pid == "" {
+		pid = "C08"
+	}
+	if s.softRef {
+		// only S holds the same value (nil elements): F against S, counted
+		s.track(op, pickRef(outs[2], outs[1]))
+		if norm[0] != norm[2] {
+			s.o.count("nil_element_F_differs_from_S_" + cls)
+		}
+		return true
+	}
 	if norm[1] != norm[2] {
 		s.o.count("unspecified_" + cls)
 		if os.Getenv("REFLECT_DEBUG") != "" {
 			fmt.Fprintf(os.Stderr, "UNSPEC %s\n   F=%s\n   D=%s\n   S=%s\n", s.replay(idx), norm[0], norm[1], norm[2])
 		}
-		s.track(op, outs[1])
+		s.track(op, pickRef(outs[1], outs[2]))
+		if s.noStop {
+			return true
+		}
 		s.stopped = true
 		return false
 	}
 	s.track(op, outs[1])
 	ok := norm[0] == norm[1]
-	s.o.withKey(key).prop("C08", ok, fmt.Sprintf("%s; step %d: generated code gives %s ; both references give %s (panic value: %v)", s.replay(idx), idx, norm[0], norm[1], s.F.pan))
+	s.o.withKey(key).prop(pid, ok, fmt.Sprintf("%s; step %d: generated code gives %s ; both references give %s (panic value: %v)", s.replay(idx), idx, norm[0], norm[1], s.F.pan))
 	if ok && s.mi.pulsar {
 		// the reflection view of F's own struct agrees with the struct state
 		view := s.si.fromPR(s.mi, s.F.res[0].(protoreflect.Message)).String()
 		st := s.state(s.F)
-		s.o.withKey(key).prop("C08", view == st, fmt.Sprintf("%s; after step %d the struct fields hold %s but Range/Has/Get show %s", s.replay(idx), idx, st, view))
+		s.o.withKey(key).prop(pid, view == st, fmt.Sprintf("%s; after step %d the struct fields hold %s but Range/Has/Get show %s", s.replay(idx), idx, st, view))
 	}
 	if !ok {
 		s.stopped = true
@@ -431,4 +454,11 @@ func (s *rsession) finish() {
 		n = 3
 	}
 	s.o.nontrivial(s.si.id + "/" + strconv.Itoa(s.mi.idx) + "/" + strings.Join(s.ops[len(s.ops)-n:], ";"))
+}
+
+func pickRef(a, b *outv) *outv {
+	if a.k == '!' && b.k != '!' {
+		return b
+	}
+	return a
 }
